@@ -73,8 +73,8 @@ Adopted(P, r) ==
   LET obsAck == AcksOf(r.s.acks)
       ack2 == [n \in DOMAIN P.ack \cup DOMAIN obsAck |-> IF n \in DOMAIN obsAck THEN obsAck[n] ELSE P.ack[n]]
       sendAcks == {r.ev[i].f[1] : i \in {j \in DOMAIN r.ev : r.ev[j].e = "send"}}
-      maxAck == Max2(IF DOMAIN ack2 = {} THEN 0 ELSE CHOOSE n \in DOMAIN ack2 : \A m \in DOMAIN ack2 : n >= m,
-                     IF sendAcks = {} THEN 0 ELSE CHOOSE n \in sendAcks : \A m \in sendAcks : n >= m)
+      seen == DOMAIN obsAck \cup sendAcks     \* (the record carries only the acknowledgements that are new or changed)
+      maxAck == IF seen = {} THEN 0 ELSE CHOOSE n \in seen : \A m \in seen : n >= m
       ids == {r.s.kw[i].id : i \in DOMAIN r.s.kw} \cup {r.s.store[i].id : i \in DOMAIN r.s.store}
              \cup (IF r.next = "C_Send" /\ r.narg > 0 THEN {r.narg} ELSE {})
       maxId == IF ids = {} THEN 0 ELSE CHOOSE n \in ids : \A m \in ids : n >= m
